@@ -33,7 +33,7 @@ ASSUMPTIONS = [
     "levels coupled by the perturbation are non-degenerate (incommensurate rational frequencies); accidental degeneracies among far states are treated as kept in the reference",
     "matrix model vf/models/fock.py and reference solver vf/models/refsolve.py are the trusted base; tolerance 1e-7 relative",
 ]
-BUDGET = {"quick": dict(cases=150, seconds=80), "thorough": dict(cases=2400, seconds=560)}
+BUDGET = {"quick": dict(cases=150, seconds=300), "thorough": dict(cases=2400, seconds=560)}
 CASE_TIMEOUT = 150
 MONITORS = {"product": False, "solvers": False}
 MONITOR_VERDICTS = ()
